@@ -90,6 +90,7 @@ type VC struct {
 	qn              int
 	frame           struct {
 		active bool
+		strict bool // declared by the contract (modifies ...): copy/append/map writes are checked too and loops keep pre-existing objects
 		next0  string
 		refs   []string
 	}
